@@ -16,6 +16,34 @@ CHECKS = {
   note="trusts harness/ref BuildLR0; oracle grammar is yaccgo's own rule list (front-end faithfulness is C10)",
   ref="4 (C09)"),
 }
+
+def G(technique, text, note, ref):
+    return dict(technique=technique, text=text, note=note, ref=ref)
+CHECKS.update({
+ "C01": G("generated parsers (5 variants) compiled and run on generated inputs; oracle = reverse-rightmost-derivation checker + Earley membership; in-process reference LR driver over dense and packed tables",
+          "Generated-input search over grammars x inputs x variants; every accepted input's recorded reductions are checked to be a rightmost derivation in reverse.", "trusts harness/ref CheckDerivation/Earley and the driver epilogue (rec(n) in every action)", "4 (C01)"),
+ "C02": G("generated parsers on every string up to a bound + sampled sentences of reference-LALR(1) grammars; oracle = Earley recogniser; LR-class separating grammar families",
+          "Generated-input search restricted to grammars the reference classifies LALR(1); every sentence must be accepted by all five variants.", "trusts ref.Member and the reference LALR classification", "4 (C02)"),
+ "C04": G("property-based testing (rapid): every two-way conflict cell of random precedence-decorated grammars vs the resolution rule of the property; exhaustive tiny space for default resolution",
+          "Generated-input search over grammars with random %left/%right/%nonassoc/%prec; table cells compared with a reference resolution computed from the abstract spec.", "candidate sets are yaccgo's own (isolates C03); listed exclusions are counted in evidence", "4 (C04)"),
+ "C05": G("property-based testing (rapid): PackTable round trip on random matrices with an independent lookup; packed-lookup model vs dense table on every cell of random and exhaustively enumerated grammars",
+          "Generated-input search: matrices and grammars; lossless compression checked cell by cell.", "lookup model mirrors the template's Action(); the gen unit runs the real template code", "4 (C05)"),
+ "C06": G("generated parsers on generated non-sentences; oracle = verdict class + fetch count vs Earley viable-prefix position",
+          "Generated-input search over grammars x non-sentences x variants: rejection only through the documented channel, and for conflict-free grammars at the first bad token.", "trusts ref.ViablePrefixLen; deadline/step limit on conflicted grammars is inconclusive", "4 (C06)"),
+ "C07": G("generated parsers with random linear actions over random union-field assignments; oracle = reference attribute evaluation over the validated parse tree",
+          "Generated-input search over action/tag assignments x sentences x variants.", "trusts ref.Tree.Eval; coefficients pairwise distinct primes so slot mix-ups change the result", "4 (C07)"),
+ "C08": G("differential testing of the five generated variants (go, go -u, go -o, go -o -u, typescript) on generated grammars and inputs",
+          "Pure differential generated-input search; no reference needed.", "node >= 22 type stripping stands in for a TypeScript compiler", "4 (C08)"),
+ "C10": G("property-based testing (rapid): abstract spec rendered with random layout (whitespace, comments, optional ';', merged/split declarations, joined/separate alternatives); round-trip oracle against the spec + metamorphic comparison with the canonical rendering",
+          "Generated-input search over specifications x layouts; the grammar yaccgo built must equal the specification.", "listed layout exclusions (CRLF, %union newline, alias position) are stated in evidence assumptions", "4 (C10)"),
+ "C12": G("property-based testing (rapid) with fault injection (unproductive / undefined symbols at start, deep, mutual, nullable siblings, unreachable) + exhaustive tiny space; oracle = textbook productive-nonterminal fixpoint",
+          "Generated-input search in both directions: usable grammars must be processed, unusable refused.", "only refusal is asserted, not wording", "4 (C12)"),
+ "C13": G("exhaustive prefix sweep of a corpus + rapid-drawn edit scripts and delimiter soups, each through generate go / generate typescript / debug in a watchdog-supervised worker, hangs confirmed with the real CLI",
+          "Bounded-time completion over generated inputs (liveness decided as 'finishes within 30 s where milliseconds are normal').", "deadline oracle; confirmed twice with the CLI before counting", "4 (C13)"),
+ "C14": G("repeated-run differential: R in-process repetitions and K separate CLI processes per grammar and option set, outputs compared byte for byte",
+          "Sampling of Go's per-range map-order randomisation; miss probability per 2-element-map dependence 2^-(K-1) per grammar.", "cannot force a map order: stated as sampling", "4 (C14)"),
+})
+
 NOT_YET = {}
 
 def main():
